@@ -11,7 +11,8 @@ let nats l = List.map nat_of_int l
 let parse_op (o : string) : op option =
   match words o with
   | ["new"; m] -> Some (ONew (z_of_string m)) | ["plain"; m] -> Some (OPlain (z_of_string m))
-  | ["nil"] -> Some ONilV | ["tnil"] -> Some OTNil | ["tnilc"] -> Some OTNilC | ["empty"] -> Some OEmpty
+  | ["nil"] -> Some ONilV | ["tnil"] -> Some OTNil | ["tnilc"] | ["tnils"] | ["tnilm"] -> Some OTNilC | ["empty"] -> Some OEmpty
+  | ["outer"; m; _] -> Some (OPlain (z_of_string m))
   | ["app"; a; l] -> Some (OAppend (nat_of_int (int_of_string a), (if l = "." then [] else nats (List.map int_of_string (String.split_on_char ',' l)))))
   | ["wrap"; i] -> Some (OWrap (nat_of_int (int_of_string i)))
   | _ -> None
